@@ -1,4 +1,6 @@
 import FrappyModel.Generated.C20
 import FrappyModel.Node.Logging
+import FrappyModel.Small.Persist
 import FrappyModel.Small.Rotate
+import FrappyModel.Spec.C17
 import FrappyModel.Spec.C20
